@@ -368,6 +368,8 @@ func exec(kind string, in []string) []string {
 }
 
 func main() {
+	fsd.Extended = true // C10 histories also use odd mailbox names (mixed case, +tag, @domain, blanks, non-UTF-8, …)
+
 	if len(os.Args) > 1 && os.Args[1] == "segment" {
 		segmentMain()
 		return
